@@ -6,3 +6,4 @@ python3-vt -c "import z3, jsonschema; print('z3', z3.get_version_string())"
 command -v z3-new >/dev/null && echo "z3-new ok"
 command -v cvc5 >/dev/null && echo "cvc5 ok"
 mkdir -p evidence replays
+command -v lean >/dev/null && echo "lean ok (background list lemmas; without it they are reported undecided)" || true
